@@ -1,3 +1,6 @@
+#ifndef _GNU_SOURCE
+#define _GNU_SOURCE
+#endif
 /* C07 - allocation failure never corrupts a container or leaks memory.
  *
  * Fault enumeration through the library's own extension point, the a_alloc function pointer:
@@ -85,7 +88,8 @@ static void ledger_release_all(void)
 #if !defined(__SANITIZE_ADDRESS__) && !defined(__SANITIZE_THREAD__) && defined(__GLIBC__)
 #define VF_BARE 1
 #include <malloc.h>
-extern void *__libc_realloc(void *, size_t);
+#include <dlfcn.h>
+#include <valgrind/valgrind.h>
 static int bare_on; /* a library call of a bare run is in flight */
 #else
 #define VF_BARE 0
@@ -163,7 +167,13 @@ void *realloc(void *p, size_t n)
             return NULL; /* the old block stays alive */
         }
     }
-    return __libc_realloc(p, n);
+    {
+        /* the next definition in lookup order: glibc's, or valgrind's replacement of it in the memcheck pass (calling __libc_realloc directly would hand valgrind's blocks to glibc) */
+        static void *(*next_realloc)(void *, size_t);
+        if (!next_realloc) { next_realloc = (void *(*)(void *, size_t))dlsym(RTLD_NEXT, "realloc"); }
+        if (!next_realloc) { fprintf(stderr, "h_oom: no realloc behind the interposed one\n"); _exit(2); }
+        return next_realloc(p, n);
+    }
 }
 #endif
 
@@ -929,6 +939,7 @@ static void vf_case(uint64_t c, vf_rng *r)
         if (vf.case_viol) { return; }
     }
 #if VF_BARE
+    if (!RUNNING_ON_VALGRIND) /* memcheck pass: its usable size is the requested size, and the pass is about the hooked runs */
     {
         uint64_t B;
         bare_run = 1;
